@@ -168,7 +168,7 @@ def main():
     chk.maybe_replay()
     sopht_modules()
     cfgs = [
-        dict(kind="ns2d", shape=(8, 8), forcing=True, free_stream=True, width=2),
+        dict(kind="ns2d", shape=(9, 8), forcing=True, free_stream=True, width=2),
         dict(kind="ns3d", shape=(6, 6, 6), forcing=True, free_stream=True, filter=("multiplicative", 2), solver="fast_diagonalisation", width=2),
     ]
     if not chk.quick:
@@ -181,12 +181,12 @@ def main():
         chk.add(no_hidden_state, cfg=c)
         chk.add(deterministic_construction, cfg=c)
     chk.add(deterministic_construction, cfg=dict(kind="ns3d", shape=(4, 4, 5), forcing=True, free_stream=True, filter=None, solver="greens_function_convolution", width=2))
-    chk.add(restart_helper, lo=0, hi=12, max_files=2, timeout=90)
+    chk.add(restart_helper, lo=0, hi=12, max_files=2, timeout=120)
+    chk.add(restart_helper, lo=9994, hi=10006, max_files=2, timeout=240)
     if not chk.quick:
-        chk.add(restart_helper, lo=9994, hi=10006, max_files=2, timeout=240)
-        chk.add(restart_helper, lo=0, hi=12, max_files=3, timeout=600)
-    chk.bounds = ["(1) one coupled step (body-force evaluation, forcing step, interaction, flow step) on 8x8 / 6x6x6 (thorough 8x8x8) grids with a 2-marker body; every scratch array, solver buffer, filter buffer, interactor work array holds different arbitrary contents in the two copies",
-                  "(5) CrossHair: <= 2 checkpoint files with indices in [0,12) (thorough: [9994,10006) = the 4->5 digit boundary, and <= 3 files); flow/body times arbitrary ints", "(4) concrete comparison of constructed tables"]
+        chk.add(restart_helper, lo=0, hi=12, max_files=3, timeout=900)
+    chk.bounds = ["(1) one coupled step (body-force evaluation, forcing step, interaction, flow step) on 9x8 (taller than wide) / 6x6x6 (thorough 8x8x8) grids with a 2-marker body; every scratch array, solver buffer, filter buffer, interactor work array holds different arbitrary contents in the two copies",
+                  "(5) CrossHair: <= 2 checkpoint files with indices in [0,12) and in [9994,10006) (the 4->5 digit boundary of the :04d file names); thorough: also <= 3 files; flow/body times arbitrary ints", "(4) concrete comparison of constructed tables"]
     chk.outside = ["PyElastica's save_state/load_state and time stepper (upstream)", "through-HDF5 fidelity (C17's stub contract)", "longer runs: follow by induction over steps from (1)+(C17)+(4), not re-proved",
                    "3-D Green's-function solver in (1) on 8^3 grids (cost of the exact DFT; its buffer independence is C03)"]
     chk.assumptions = ["the Eulerian forcing field is zero at step boundaries (C01)", "forcing grid = harness stub with concrete marker positions (C10)", "CrossHair's 'Confirmed over all paths' is taken as the bounded verdict; anything else is inconclusive"]
